@@ -662,21 +662,25 @@ Fixpoint acc_bump (l c : nat) (a : list (nat * nat * nat)) : list (nat * nat * n
   | [] => [(l, c, 1)]
   | (l', c', k) :: tl => if Nat.eqb l l' && Nat.eqb c c' then (l', c', S k) :: tl else (l', c', k) :: acc_bump l c tl
   end.
-Fixpoint trainer_cells_step (s : state) (t : trainer) (cells : list (nat * cellid)) : state * option err :=
+(* the delay-adjusted rules read cell.connection.delay (None on a connection without delays: AttributeError) *)
+Definition needs_delay (ty : ttype) : bool := match ty with TDelayAdjusted => true | _ => false end.
+Fixpoint trainer_cells_step (w : world) (s : state) (t : trainer) (cells : list (nat * cellid)) : state * option err :=
   match cells with
   | [] => (s, None)
   | (cn, c) :: tl =>
       (* skip if self or cell is not in training mode *)
-      if negb (l_training (get_layer s (cell_layer c))) || negb (t_training t) then trainer_cells_step s t tl
+      if negb (l_training (get_layer s (cell_layer c))) || negb (t_training t) then trainer_cells_step w s t tl
       else
         let g := match alookup cn (t_pool t) with Some g => g | None => [] end in
         match needs_ok s g (trainer_needs (t_type t)) with
         | Some e => (s, Some e)
-        | None => trainer_cells_step (set_accs (acc_bump (cell_layer c) (cell_conn c) (accs s)) s) t tl
+        | None =>
+            if needs_delay (t_type t) && negb (snd (conn_info w c)) then (s, Some EAttribute)
+            else trainer_cells_step w (set_accs (acc_bump (cell_layer c) (cell_conn c) (accs s)) s) t tl
         end
   end.
-Definition trainer_step (s : state) (ti : nat) : state * option err :=
-  let t := get_trainer s ti in trainer_cells_step s t (t_cells t).
+Definition trainer_step (w : world) (s : state) (ti : nat) : state * option err :=
+  let t := get_trainer s ti in trainer_cells_step w s t (t_cells t).
 
 (* ------------------------------------------------------------------ one operation, then garbage collection *)
 Definition step_raw (w : world) (s : state) (o : op) : state * option err :=
@@ -688,7 +692,7 @@ Definition step_raw (w : world) (s : state) (o : op) : state * option err :=
   | TrainerMode t mode => (trainer_mode s t mode, None)
   | LayerMode l mode => (upd_layer l (fun L => mkLayer mode (l_hooks L) (l_steps L)) s, None)
   | LayerStep l => layer_step s l
-  | TrainerStep t => trainer_step s t
+  | TrainerStep t => trainer_step w s t
   | Clear t => (clear_all (pool_monitors (get_trainer s t)) s, None)
   | DropTrainer t => (upd_trainer t kill_trainer s, None)
   end.
